@@ -4,6 +4,7 @@ import (
 	"bufio"
 	"fmt"
 	"io"
+	"os"
 	"os/exec"
 	"strconv"
 	"strings"
@@ -210,6 +211,9 @@ func (s *Solver) Check(pc []*Term, extra ...*Term) SatResult {
 	}
 	if strings.HasPrefix(line, "(error") {
 		s.Errors = append(s.Errors, line)
+	}
+	if os.Getenv("GOSYM_DEBUG_UNKNOWN") != "" {
+		fmt.Fprintln(os.Stderr, "solver non-answer:", line)
 	}
 	s.Unknowns++
 	return Unknown
